@@ -48,9 +48,13 @@ func hasBlankIdentifier(tup *types.Tuple) bool {
 }
 
 // unusable reports whether a parameter cannot be forwarded under its own name:
-// it is blank or unnamed, or it would capture a name the generated wrappers use themselves.
+// it is blank or unnamed, or it would capture a name the generated wrappers use themselves:
+// f and err, and the predeclared identifiers (nil, true, string, ...) that the wrappers and the types they print refer to.
 func unusable(name string) bool {
-	return name == blackIdentifier || name == "" || name == "f" || name == "err"
+	if name == blackIdentifier || name == "" || name == "f" || name == "err" {
+		return true
+	}
+	return types.Universe.Lookup(name) != nil
 }
 
 func rename(tup *types.Tuple, prefix string) *types.Tuple {
